@@ -433,3 +433,51 @@ def memory_roundtrip(mi: int) -> bool:
         ok = statypes.ConfigMemory(m.to_str()).to_nbytes() == n and statypes.ConfigMemory(m.to_json()).to_nbytes() == n
         cov.done('memory')
         return ok
+
+
+# ---------------------------------------------------------------------------
+# polymorphic config objects: an exclusive field declared on an abstract parent
+# (like cfg::EmailProviderConfig.name) holds ACROSS its concrete subtypes
+
+Provider = ctypes.ConfigTypeSpec(
+    name='Provider',
+    fields=_mk_fields(Field('name', str, unique=True)),
+)
+SMTP = ctypes.ConfigTypeSpec(
+    name='SMTP', parent=Provider,
+    fields=_mk_fields(Field('name', str, unique=True), Field('host', str, default='h')),
+)
+Webhook = ctypes.ConfigTypeSpec(
+    name='Webhook', parent=Provider,
+    fields=_mk_fields(Field('name', str, unique=True), Field('url', str, default='u')),
+)
+Provider.children.extend([SMTP, Webhook])
+
+SPEC_POLY = cspec.FlatSpec(
+    cspec.Setting('providers', type=Provider, set_of=True, default=frozenset()),
+)
+
+
+def _provider(kind: int, name: str):
+    if kind == 0:
+        return {'_tname': 'SMTP', 'name': name}
+    return {'_tname': 'Webhook', 'name': name}
+
+
+def poly_object_ops(i0: int, i1: int, k0: int, k1: int, sc: int) -> bool:
+    """CONFIGURE INSERT of two provider objects of symbolically chosen subtypes and names: the second one is
+    rejected exactly when the names are equal - whether or not the subtypes are (the exclusive field is
+    declared on the common parent); otherwise both are stored, at the scope they were inserted at."""
+    d0, d1 = pick3(i0), pick3(i1)
+    scope = scope_of(sc)
+    st1 = ops.Operation(ops.OpCode.CONFIG_ADD, scope, 'providers', _provider(k0, d0)).apply(SPEC_POLY, EMPTY)
+    try:
+        st2 = ops.Operation(ops.OpCode.CONFIG_ADD, scope, 'providers', _provider(k1, d1)).apply(SPEC_POLY, st1)
+    except errors.ConstraintViolationError:
+        cov.done('poly-rejected-dup')
+        return d0 == d1 and len(config.lookup('providers', st1, spec=SPEC_POLY)) == 1
+    if d0 == d1:
+        return False
+    v2 = config.lookup('providers', st2, spec=SPEC_POLY)
+    cov.done('poly-add-add')
+    return len(v2) == 2 and sorted(v.name for v in v2) == sorted([d0, d1])
